@@ -31,7 +31,8 @@ Definition gen_table : table := map (fun r => (row_v1key r, row_v2path r)) v1_ta
 
 (* ---------------- rules ---------------- *)
 Record section := { se_name : string; se_type : string;      (* "" = the section has no Sampler key *)
-                    se_params : list (string * Z); se_fields : list string }.
+                    se_params : list (string * Z); se_fields : list string;
+                    se_rules : list string }.      (* RulesBasedSampler: one canonical text per rule, in order *)
 Definition second : Z := 1000000000%Z.
 Definition conv_param (p : string * Z) : string * Z :=
   if String.eqb (fst p) "ClearFrequencySec" then ("ClearFrequency", (snd p * second)%Z)
@@ -40,7 +41,7 @@ Definition conv_param (p : string * Z) : string * Z :=
 Definition conv_section (name : string) (s : section) : section :=
   {| se_name := name;
      se_type := if String.eqb (se_type s) "" then "DeterministicSampler" else se_type s;
-     se_params := map conv_param (se_params s); se_fields := se_fields s |}.
+     se_params := map conv_param (se_params s); se_fields := se_fields s; se_rules := se_rules s |}.
 Definition has_sampler (s : section) : bool := negb (String.eqb (se_type s) "").
 Definition convert_rules (dflt : section) (ds : list section) : list section :=
   conv_section "__default__" dflt :: map (fun s => conv_section (se_name s) s) (filter has_sampler ds).
@@ -52,3 +53,31 @@ Definition gen_shape_ok : bool :=
   list_eqb String.eqb renamed_sampler_keys ["clearfrequencysec"; "adjustmentinterval"] &&
   list_eqb String.eqb convertible_sampler_types
     ["DeterministicSampler"; "DynamicSampler"; "EMADynamicSampler"; "RulesBasedSampler"; "TotalThroughputSampler"].
+
+(* ---------------- what the converter writes for one setting, and what the v2 loader then uses ----------------
+   tools/convert/helpers.go: nonDefaultOnly / nonZero / nonEmptyString / secondsToDuration / memorysize / choice /
+   renderStringarray, selected by the field's valuetype in configMeta.yaml (templates/genfield.tmpl).
+   Comparisons are on the printed form (fmt %v) of the v1 value. The v2 loader (C29) treats a zero value of a
+   non-pointer field as "not set" and applies the struct default; *DefaultTrue fields keep an explicit false. *)
+Record setting_in := {
+  si_vt : string;            (* valuetype *)
+  si_text : string;          (* the v1 value as printed *)
+  si_mdefault : string;      (* documented default as printed *)
+  si_choices : list string;
+  si_v1 : string;            (* canonical v1 value (durations ns, sizes bytes, lists joined) *)
+  si_sdefault : string;      (* canonical value the v2 loader uses when the setting is not named *)
+  si_ptr : bool              (* the v2 field can hold an explicit zero (pointer type) *)
+}.
+Definition zero_text (s : string) : bool := String.eqb s "" || String.eqb s "0" || String.eqb s "false".
+Definition is_in (x : string) (l : list string) : bool := existsb (String.eqb x) l.
+Definition emits (s : setting_in) : bool :=
+  let vt := si_vt s in
+  if String.eqb vt "nondefault" then negb (String.eqb (si_text s) (si_mdefault s))
+  else if String.eqb vt "nonzero" then negb (zero_text (si_text s))
+  else if String.eqb vt "nonemptystring" || String.eqb vt "secondstoduration" || String.eqb vt "memorysize" ||
+          String.eqb vt "stringarray" then negb (String.eqb (si_text s) "")
+  else if String.eqb vt "choice" then negb (String.eqb (si_text s) (si_mdefault s)) && is_in (si_text s) (si_choices s)
+  else false.                 (* showexample, assigndefault, conditional, map, unmapped v1 settings: never read *)
+Definition loaded (s : setting_in) : string :=
+  if emits s then (if zero_text (si_v1 s) && negb (si_ptr s) then si_sdefault s else si_v1 s)
+  else si_sdefault s.
